@@ -27,7 +27,7 @@ RULE = ('case = (served subset, supported transfer-syntax subset, list of (abstr
         'list)); distinct = same tuple; non-trivial = at least one context proposed')
 ASSUMPTIONS = ['user information item last, Maximum Length first sub-item (what conformant peers send)']
 REQUIRED = ['oracle.reply-structure', 'oracle.accept-iff', 'oracle.routing', 'oracle.titles-repeated',
-            'oracle.extra-user-items', 'oracle.duplicate-transfer-syntax-entries']
+            'oracle.extra-user-items', 'oracle.duplicate-transfer-syntax-entries', 'oracle.entity-also-scu']
 
 CLASSES = [b'1.2.840.10008.1.1', b'1.2.840.10008.5.1.4.1.1.2', b'1.2.840.10008.5.1.4.1.2.1.1']
 STRANGER = b'1.2.840.10008.5.1.4.1.1.999'
@@ -94,7 +94,8 @@ def run_shard(spec, tier, seed):
         for served, ts in spec['configs']:
             run_case(res, {'served': served, 'ts': ts, 'contexts': [], 'ids': [], 'probe': True})
             for c in range(len(CONTEXT_CHOICES)):
-                run_case(res, {'served': served, 'ts': ts, 'contexts': [c], 'ids': [1], 'probe': True})
+                run_case(res, {'served': served, 'ts': ts, 'contexts': [c], 'ids': [1], 'probe': True,
+                               'scu': c % 3})
             # every optional user item with a stride of the single-context requests (all of them
             # in the thorough tier)
             step = 16 if spec['n'] < 2 else 1
@@ -118,7 +119,8 @@ def run_shard(spec, tier, seed):
             run_case(res, {'served': r.randrange(8), 'ts': r.randrange(16),
                            'contexts': [r.randrange(len(CONTEXT_CHOICES)) for _ in range(n)], 'ids': ids,
                            'probe': r.random() < 0.5, 'titles': [r.randrange(1, 17), r.randrange(1, 17)],
-                           'extra': r.sample(range(len(EXTRAS)), r.choice([0, 0, 1, 2, 4]))})
+                           'extra': r.sample(range(len(EXTRAS)), r.choice([0, 0, 1, 2, 4])),
+                           'scu': r.choice([0, 0, 1, 2])})
     return res
 
 
@@ -130,6 +132,13 @@ def replay(case):
         return res
     run_case(res, case)
     return res
+
+
+def _scu_service(classes):
+    def scu(asce, ctx, *a):
+        return None
+    scu.sop_classes = list(classes)
+    return scu
 
 
 class Recorder(object):
@@ -177,6 +186,8 @@ def run_case(res, case):
     if contexts:
         res.distinct.add('%d|%d|%s|%s|%s' % (case['served'], case['ts'], contexts, ids, case.get('extra', '')))
     tree, rq = request_object(contexts, ids, case.get('titles'), case.get('extra', ()))
+    if case.get('scu'):
+        res.count('oracle.entity-also-scu')
     if case.get('extra'):
         res.count('oracle.extra-user-items')
     if any(c >= NDISTINCT for c in contexts):
@@ -203,7 +214,13 @@ def run_case(res, case):
             ae = applicationentity.AE('ACCEPTOR', 0, supported_ts=[t.decode() for t in supported],
                                       bind_and_activate=False)
             try:
+                # the entity may use the same classes as SCU as well (registered before or after)
+                scu = case.get('scu', 0)
+                if scu == 1 and served:
+                    ae.add_scu(_scu_service([s.decode() for s in served]))
                 ae.add_scp(service)
+                if scu == 2 and served:
+                    ae.add_scu(_scu_service([s.decode() for s in served[:1]]))
                 Stub.preload = [rq] + script
                 error = None
                 try:
